@@ -158,4 +158,16 @@ PROPS = {
         "assumptions": ["64-bit usize", "output buffers above 64 MiB are not allocated in the quick tier (5 GiB in the thorough tier), so reads of such files are skipped there"],
         "partial": ["no-panic theorems exist only for the modelled components; VP8 reconstruction, lossless transforms and decode_image_data are covered by the corruption stream only"],
     },
+    "C01": {
+        "technique": "Lean 4 executable specification decoder + component equality theorems (tables, LZ77 arithmetic, distance map, cache hash, predictor/colour kernels, bit-reader window) + three-way correspondence: real decoder vs specification vs libwebp on generated valid streams and on each inverse transform",
+        "level_text": "Theorems for all arguments: the crate's distance map equals libwebp's kCodeToPlane decoding and the clamped distance computation equals the specification's for every width and code; LZ77 prefix values equal the specification's for every symbol and extra-bit value; both copies of the code-length order equal libwebp's; the colour-cache hash is the specification's; the predictor kernels (average, Select decision, ClampAddSubtractFull/Half with truncating division) and the colour-transform delta (wrapping u32 arithmetic vs signed arithmetic shift) agree with the specification for all byte values; the bit reader returns exactly the stream's bits under every refill schedule (C10). The whole-stream refinement is not yet a theorem (no Lean model of decode_image_data/HuffmanTree yet); it is established by execution on every run: streams from this crate's encoder, from libwebp's lossless encoder under 7 methods x 4 qualities on image families that trigger every transform, all palette packing widths, colour cache and meta prefix codes, and hand-built streams (simple codes in every order and role, cache hits on never-written slots, 57/58-bit symbol groups at all 8 alignments) are decoded by the real decoder (poisoned buffer), by the Lean specification decoder VP8L.decode and by libwebp and must agree; each inverse transform is also compared with the specification's through its hook for all 14 modes.",
+        "level_note": "Trusted: Lean kernel + standard axioms for the component theorems; the specification decoder is a transcription of the lossless specification text (offline copy) validated against libwebp on every generated stream (disagreements are reported separately as specification-vs-reference); where the text is silent it follows libwebp (marked (*) in Spec/Lossless.lean).",
+        "design_ref": "DESIGN.md section 4, C01",
+        "trusted_base": COMMON_TB + [
+            "modelled, not verified: lossless.rs get_copy_distance, plane_code_to_distance, ColorCache::insert, BitReader; lossless_transform.rs average2, clamp_add_subtract_full/half, the Select decision of predictor 11, color_transform_delta; the decode loop, HuffmanTree and the transform drivers are NOT modelled yet (correspondence only)",
+            "specification: VP8L.decode (Spec/Lossless.lean) - executable transcription of the WebP lossless bitstream specification; libwebp WebPDecodeRGBA as executable reference",
+        ],
+        "assumptions": ["spec-valid = accepted by the specification decoder / libwebp; predictor modes 14 and 15 are outside the specification (the code leaves such blocks unpredicted, libwebp predicts opaque black): recorded, not claimed"],
+        "partial": ["whole-stream refinement (decode_image_data, HuffmanTree two-level tables, chunked overlapping copies, transform drivers) is validated by the three-way correspondence, not proved"],
+    },
 }
